@@ -31,14 +31,14 @@ PROPS = {
                       "declaration token + reference-index cells): refs_eq_uses (recorded references = the uses Lua scoping "
                       "binds to the declaration, via C13 find_eq_lua), references_eq_rename, rename_edits_disjoint / "
                       "rename_edits_sorted (one edit per token, declaration before its uses), "
-                      "rename_preserves_binding_partial (alpha-renaming the declaration and the uses the environment binds "
-                      "to it with a fresh name leaves every resolution unchanged; freshness is necessary). The LS rename and references handlers run in-process at every declaration and use token of "
+                      "rename_preserves_binding (applying the edits at their token positions with a name not occurring in the "
+                      "program leaves every resolution unchanged: proved via rename_edits_are_alpha = the edit positions "
+                      "rewrite exactly the declaration token and the uses the environment binds to it, and "
+                      "alpha_preserves_binding; freshness is necessary). The LS rename and references handlers run in-process at every declaration and use token of "
                       "generated programs and are compared with the model; independently the oracle checks single-token "
                       "non-overlapping edits = {decl} + {uses bound by the reference resolver}, references = same set, and "
                       "apply-with-fresh-name + re-analysis = same resolution.",
-        "level_note": "Trusted: Lean kernel, harness/renderer, the correspondence run as the tie. The identification of "
-                      "'apply the edit positions' with alpha-renaming through the environment is checked by execution on every "
-                      "case (driver op scope.renamed), not proved. Not modelled: references' alias tracing (SemanticDeclLevel::Trace) "
+        "level_note": "Trusted: Lean kernel, harness/renderer, the correspondence run as the tie. Not modelled: references' alias tracing (SemanticDeclLevel::Trace) "
                       "for `local g = f` (open known finding, references tie skipped on those tokens), rename of globals, "
                       "members, doc @param tags, cross-file references.",
         "trusted_base": SCOPE_TB + ["hook emmylua_ls::verif_scope (re-export of rename/references entry points)"],
